@@ -309,6 +309,11 @@ def make_traced(nautilus):
                 tr.lines.append('R %d %s %d %s %d %s' % (len(rd[0]), ' '.join(map(str, rd[0])), len(rd[1]), ' '.join(map(str, rd[1])),
                                                         len(rd[2]), ' '.join(map(str, rd[2]))))
             tr.lines.append('V %s' % ' '.join('%d %d' % v for v in vals))
+            if not self.explored and tr.in_run:
+                # the stopping rule of the exploration phase as run() is about to evaluate it (a pure accessor of the state)
+                with np.errstate(all='ignore'):
+                    fl = bool(self.f_live <= tr.run_args.get('f_live', 0.01))
+                tr.lines.append('FL %d' % (1 if fl else 0))
             tr.stats['batches'] += 1
             tr.stats['sampling_batches' if self.explored else 'exploration_batches'] += 1
             # C10 direct predicates on this batch
@@ -533,7 +538,8 @@ def run_traced(cfg, max_batches=400):
         tr.lines.append('N %d' % cfg['n_batch'])
         est_batches = cfg.get('max_batches') or (max_batches if cfg['n_batch'] >= 7 else 4 * max_batches)
         toggle_at = sorted(int(x) for x in rng.integers(1, 60, size=cfg.get('toggles', 0)))
-        resume_at = sorted(int(x) for x in rng.integers(2, 60, size=cfg.get('resumes', 0)))
+        # resumes early (few bounds) and anywhere in the run (many bounds, sampling phase)
+        resume_at = sorted(int(x) if i % 2 == 0 else int(2 + (x - 2) * max(1, (est_batches - 2)) // 58) for i, x in enumerate(rng.integers(2, 60, size=cfg.get('resumes', 0))))
         k = 0
         done = False
         tr.returns = []
